@@ -791,6 +791,7 @@ def mutate_case(R, r, t, d, e, obj, view, cls, cache, buf, ops, exp, cctx, sx):
                 old = deep_str(t, obj, cache)
             except Exception:
                 old = None
+            own_refused = None
             try:
                 if kind == "set" and len(path) > 1 and r.random() < 0.6:
                     # through a nested container handle that was obtained earlier (possibly before the buffer grew)
@@ -818,11 +819,26 @@ def mutate_case(R, r, t, d, e, obj, view, cls, cache, buf, ops, exp, cctx, sx):
                     if seen != fresh_:
                         R.fail("C10:own-handle-stale", f"{sx[:200]}: after `x = obj{pstr(path)}; x._update({repr(nd_)[:80]})` the handle x reads "
                                f"{seen[:140]}, a fresh view of the same element {str(fresh_)[:140]}", dict(cctx, path=pstr(path), assigned=repr(nd_)[:400]))
+                elif kind in ("setmisfit", "badlen") and st[0] == "array" and r.random() < 0.6:
+                    # a (possibly refused) whole update through a handle of the array itself: after a REFUSAL that handle is what it was
+                    own_refused = nav(h, path)
+                    own_refused._update(arg2)
+                    own_refused = None
+                    hname += " (the element's own handle)"
                 else:
                     nav_set(h, path, arg2)
                 res = "ok"
             except Exception as ex:
                 res = "err " + exc_name(ex)
+            if res != "ok" and own_refused is not None:
+                R.tags["op.refused-update.own-handle"] += 1
+                try:
+                    seen, fresh_ = deep_str(st, own_refused, cache), deep_str(st, nav(h, path), cache)
+                except Exception as ex:
+                    seen, fresh_ = "EXC " + exc_name(ex), None
+                if seen != fresh_:
+                    R.fail("C11:refused-update-changed-the-handle", f"{sx[:200]}: x = obj{pstr(path)}; x._update({repr(nd_)[:80]}) was refused, but the handle x "
+                           f"now reads {seen[:140]}; a fresh view of the same element reads {str(fresh_)[:140]}", dict(cctx, path=pstr(path), assigned=repr(nd_)[:400]))
             after = image(buf)
             ops.append(f"set h {pstr(path)} {vs2}")
             exp.append(f"{res} cap {buf.capacity} mem {after.hex()}")
